@@ -24,6 +24,8 @@ CONVS = ('conv1d', 'conv2d', 'linear')
 # ----------------------------------------------------------------------------- spec
 def make_spec(seed, cfg):
     rng = random.Random(seed)
+    if cfg.get('siamese'):
+        return siamese_spec(rng, cfg['dim'])
     # every topology of the grammar is kept, including a depthwise conv fed by a concat and an add of a concat (their
     # components are frozen by the conversion since the C09 repair); they are counted in the evidence distribution
     spec = ga.gen(rng, dim=cfg['dim'], conv_head=True, bn=not cfg.get('integer'), k1d=[1, 2, 3, 3, 4, 5, 6, 7, 9])
@@ -62,6 +64,59 @@ def add_second_input(spec):
     spec['out'] = [j + 2 for j in spec['out']]
     spec['productions'] = list(spec.get('productions', [])) + ['second-input']
     return spec
+
+
+def siamese_spec(rng, dim):
+    """a two-input siamese network: two private Conv+BN stems (one per input), ONE shared head Conv(+BN) applied to both stems
+    (the same modules at two call sites), sum, pooled linear classifier.  The stem of the second branch is reachable from the
+    output only through the second call site of the shared head."""
+    cin = rng.randint(1, 3)
+    c1, c2 = rng.randint(2, 5), rng.randint(2, 5)
+    nodes = []
+
+    def add(**nd):
+        nodes.append(nd)
+        return len(nodes) - 1
+    if dim == 1:
+        T = rng.randint(8, 14)
+        i0 = add(k='in', shape=[cin, T])
+        i1 = add(k='in', shape=[cin, T])
+
+        def conv(src, ci, co, ks, dil, bias):
+            left = (ks - 1) * dil
+            p_ = add(k='pad1d', src=src, left=left)
+            return add(k='conv1d', src=p_, cin=ci, cout=co, ks=ks, dil=dil, stride=1, groups=1, bias=bias)
+        bn = 'bn1d'
+    else:
+        hw = rng.randint(5, 8)
+        i0 = add(k='in', shape=[cin, hw, hw])
+        i1 = add(k='in', shape=[cin, hw, hw])
+
+        def conv(src, ci, co, ks, dil, bias):
+            return add(k='conv2d', src=src, cin=ci, cout=co, ks=[ks, ks], dil=1, stride=1, groups=1, bias=bias, padding=rng.choice(['same', ks // 2]))
+        bn = 'bn2d'
+    stems = []
+    for src in (i0, i1):
+        c = conv(src, cin, c1, rng.choice([1, 3, 3, 5]), rng.choice([1, 2]), rng.random() < 0.6)
+        cur = add(k=bn, src=c, c=c1) if rng.random() < 0.8 else c
+        if rng.random() < 0.6:
+            cur = add(k='relu', src=cur)
+        stems.append(cur)
+    hk, hd, hb, hbn = rng.choice([1, 3, 3]), rng.choice([1, 2]), rng.random() < 0.6, rng.random() < 0.8
+    first = len(nodes)
+    h1 = conv(stems[0], c1, c2, hk, hd, hb)
+    o1 = add(k=bn, src=h1, c=c2) if hbn else h1
+    second = len(nodes)
+    h2 = conv(stems[1], c1, c2, hk, hd, hb)
+    o2 = add(k=bn, src=h2, c=c2) if hbn else h2
+    s_ = add(k='add', src=[o1, o2])
+    cur = add(k='relu', src=s_) if rng.random() < 0.5 else s_
+    cur = add(k='gap%dd' % dim, src=cur)
+    cur = add(k='flatten', src=cur)
+    out = add(k='linear', src=cur, cin=c2, cout=rng.randint(2, 4), bias=True)
+    aliases = [(h2, h1)] + ([(o2, o1)] if hbn else [])
+    return {'dim': dim, 'nodes': nodes, 'out': [out], 'productions': ['siamese-shared-head' + ('-with-bn' if hbn else '')],
+            'input_shape': list(nodes[0]['shape']), 'aliases': aliases}
 
 
 def add_second_call_site(spec, rng):
@@ -415,9 +470,13 @@ def add_training_branch(torch, m, spec, variant, rng):
 
 
 # ----------------------------------------------------------------------------- observers
-def hp(mod):
-    """hyper-parameters of a module as a JSON-able tuple"""
+def hp(mod, exact=False):
+    """hyper-parameters of a module as a JSON-able tuple.  exact=False: a PIT* layer of the ORIGINAL (user-placed) is named by the
+    torch layer it stands for (that is what an export must give back); exact=True (EXPORTED network): the class name as it is, so a
+    NAS layer left in an export does not pass for a plain one"""
     import torch.nn as nn
+    if exact and not type(mod).__module__.startswith('torch.nn'):
+        return [type(mod).__name__, 'not a torch.nn layer']
     if isinstance(mod, (nn.Conv1d, nn.Conv2d)):
         return [type(mod).__mro__[[c.__module__.startswith('torch.nn') for c in type(mod).__mro__].index(True)].__name__,
                 mod.in_channels, mod.out_channels, list(mod.kernel_size), list(mod.stride),
@@ -436,7 +495,7 @@ def graph_arch(gm, fold_pairs=None):
         if n.op != 'output' and len(n.users) == 0:
             continue            # a node nobody reads is not part of the computed function (counted separately)
         if n.op == 'call_module':
-            out.append(hp(gm.get_submodule(str(n.target))))
+            out.append(hp(gm.get_submodule(str(n.target)), exact=True))
         elif n.op in ('call_function', 'call_method'):
             t = n.target if isinstance(n.target, str) else getattr(n.target, '__name__', str(n.target))
             out.append(['fn', t])
@@ -776,6 +835,21 @@ def run_case(torch, seed, cfg):
                 ob['export_dead_nodes'] = dead_nodes(e)
                 emods = dict(e.named_modules())
                 ob['exported_hp'] = {n: hp(emods[n]) for n in ob['pit_layers'] if n in emods}
+                from plinio.methods.pit.nn.module import PITModule
+                ob['export_nas_layers_left'] = sorted(n for n, mm in e.named_modules() if isinstance(mm, PITModule))
+                # an intervening export(add_bn=False) is an observer: afterwards the wrapper still computes the original
+                # function and a plain export() still gives the original architecture back
+                try:
+                    w.export(add_bn=False)
+                    w.eval()
+                    with torch.no_grad():
+                        yw2 = w(*xs)
+                    ob['d_wrapper_after_export'] = maxdiff(torch, y0, yw2)
+                    e3 = w.export()
+                    ob['export_arch_after_export'] = graph_arch(e3)
+                except Exception as ex3:
+                    ob['export_sequence_exc'] = '%s: %s' % (type(ex3).__name__, str(ex3)[:200])
+                w.train(bool(cfg['train']))
         o['n_layers'] = len(convs)
         o['n_bn_after'] = len(bnf)
     except Exception as ex_:
@@ -839,6 +913,17 @@ def oracle(o):
             k = next((i for i, (a, b) in enumerate(zip(ob['export_arch'], ob['expected_arch'])) if a != b), min(len(ob['export_arch']), len(ob['expected_arch'])))
             f.append(('export-architecture-differs:' + tag, 'node %d: exported %s, original %s (lengths %d / %d)' % (
                 k, ob['export_arch'][k] if k < len(ob['export_arch']) else None, ob['expected_arch'][k] if k < len(ob['expected_arch']) else None, len(ob['export_arch']), len(ob['expected_arch']))))
+        if ob.get('export_nas_layers_left'):
+            f.append(('export-keeps-nas-layers:' + tag, 'the exported network still contains searchable layers: %s' % ob['export_nas_layers_left'][:5]))
+        if 'export_sequence_exc' in ob:
+            f.append(('export-sequence-raises:' + tag, 'export(add_bn=False); forward; export() raised %s' % ob['export_sequence_exc']))
+        if 'd_wrapper_after_export' in ob and not ob['d_wrapper_after_export'] <= tol:
+            f.append(('wrapped-differs-after-export:' + tag, 'after one export(add_bn=False) the wrapped model no longer agrees with the original in eval mode: max diff %r' % ob['d_wrapper_after_export']))
+        if 'export_arch_after_export' in ob and ob['export_arch_after_export'] != ob['expected_arch']:
+            a_, b_ = ob['export_arch_after_export'], ob['expected_arch']
+            k = next((i for i, (x_, y_) in enumerate(zip(a_, b_)) if x_ != y_), min(len(a_), len(b_)))
+            f.append(('export-architecture-differs-after-export:' + tag, 'export() after an export(add_bn=False): node %d: exported %s, original %s (lengths %d / %d)' % (
+                k, a_[k] if k < len(a_) else None, b_[k] if k < len(b_) else None, len(a_), len(b_))))
         if not ob.get('export_out_shape_ok', True):
             f.append(('export-output-shape-differs:' + tag, ''))
     if method in ('pit', 'mps'):
